@@ -212,6 +212,16 @@ pub fn run_replay(prop: &dyn Prop, rep: &Value, cx: &Cx, spill: Option<&str>) ->
             }
         }
     }
+    if let Some(f) = rep.get("fuzz") {
+        // a raw fuzzer input that could not be turned into a direct input or a tape (it kills the
+        // process): {"target": name, "hex": bytes}
+        let t = f.get("target").and_then(|v| v.as_str()).unwrap_or("");
+        let h = f.get("hex").and_then(|v| v.as_str()).unwrap_or("");
+        let data: Vec<u8> = (0..h.len() / 2).filter_map(|i| u8::from_str_radix(&h[2 * i..2 * i + 2], 16).ok()).collect();
+        if let Some(o) = crate::fuzzentry::run(t, &data, cx.strict, cx.render) {
+            return o.result;
+        }
+    }
     let space = rep.get("space").and_then(|v| v.as_str()).unwrap_or("").to_string();
     let index = rep.get("index").and_then(|v| v.as_u64()).unwrap_or(0);
     let tape: Vec<u64> = rep.get("tape").and_then(|v| v.as_array()).map(|a| a.iter().filter_map(|x| x.as_u64()).collect()).unwrap_or_default();
